@@ -33,6 +33,7 @@ type sweep struct {
 	byName   map[string]*Entry
 	nextID   int
 	seen     map[string]int
+	okDeep   map[string]bool // entries of which a valid seed ran to the end without error in this run
 	start    time.Time
 	budget   time.Duration
 	Warnings []string
@@ -46,7 +47,9 @@ func allEntries() []*Entry {
 	es = append(es, rlpEntries()...)
 	es = append(es, jsonEntries()...)
 	es = append(es, rawdbEntries()...)
+	es = append(es, extraEntries()...)
 	for _, e := range es {
+		e.Covers = coversFor(e.Name)
 		if e.AllocC == 0 {
 			e.AllocC = 200
 		}
@@ -63,7 +66,7 @@ func allEntries() []*Entry {
 func newSweep(rep *hlib.Report, budget time.Duration) *sweep {
 	// logger.Fatal would end the harness: turn the exit into a panic the guard recognises
 	log.Global.ExitFunc = func(code int) { panic(fatalExit{code}) }
-	s := &sweep{rep: rep, nextID: 1_000_000, seen: map[string]int{}, byName: map[string]*Entry{}, start: time.Now(), budget: budget}
+	s := &sweep{rep: rep, nextID: 1_000_000, seen: map[string]int{}, okDeep: map[string]bool{}, byName: map[string]*Entry{}, start: time.Now(), budget: budget}
 	s.entries = allEntries()
 	for _, e := range s.entries {
 		s.byName[e.Name] = e
@@ -116,6 +119,9 @@ func (s *sweep) exec(e *Entry, in []byte, mut string) outcome {
 		s.rep.Count("outcome:error")
 	default:
 		s.rep.Count("outcome:ok")
+	}
+	if o.deep && o.err == nil && !o.panicked && !o.fatal && !o.timeout && strings.HasPrefix(mut, "valid ") {
+		s.okDeep[e.Name] = true
 	}
 	if o.deep {
 		s.rep.Count("depth:past-first-guard")
@@ -294,7 +300,7 @@ func (s *sweep) random(rng *hlib.Rng, n int) {
 }
 
 // Run executes the decoder sweep: fixed targeted corpus first, then n generated cases derived only from rng.
-func Run(rng *hlib.Rng, rep *hlib.Report, n int, tier string, budget time.Duration) {
+func Run(rng *hlib.Rng, rep *hlib.Report, n int, tier string, budget time.Duration) *Inventory {
 	s := newSweep(rep, budget)
 	allKinds = tier == "thorough"
 	s.corpus(tier)
@@ -306,7 +312,10 @@ func Run(rng *hlib.Rng, rep *hlib.Report, n int, tier string, budget time.Durati
 	s.start, s.budget = time.Now(), budget/2
 	s.random(rng, n)
 	rep.Distribution["dec:random-cases"] = s.nextID - before
+	iv := s.inventory()
+	iv.report(rep)
 	Warnings = s.Warnings
+	return iv
 }
 
 func timedFix(e *Entry, m proto.Message) bool {
@@ -342,4 +351,27 @@ func ReplayMap(c map[string]any, rep *hlib.Report) {
 		s.nextID = int(id)
 	}
 	s.exec(e, b, mut)
+}
+
+// CheckFixtures runs only the valid seeds of every entry and reports those that do not decode to the end.
+func CheckFixtures(rep *hlib.Report) []string {
+	s := newSweep(rep, time.Hour)
+	var out []string
+	for _, e := range s.entries {
+		for pi, p := range e.Protos {
+			b, _ := proto.Marshal(p)
+			if o := s.exec(e, b, fmt.Sprintf("valid proto#%d", pi)); !o.deep || o.err != nil || o.panicked {
+				out = append(out, fmt.Sprintf("%s proto#%d: deep=%v err=%v panic=%v %s", e.Name, pi, o.deep, o.err, o.panicked, o.val))
+			}
+		}
+		for si, b := range e.Seeds {
+			if o := s.exec(e, b, fmt.Sprintf("valid seed#%d", si)); !o.deep || o.err != nil || o.panicked {
+				out = append(out, fmt.Sprintf("%s seed#%d: deep=%v err=%v panic=%v %s | %.200s", e.Name, si, o.deep, o.err, o.panicked, o.val, string(b)))
+			}
+		}
+		if len(e.Protos)+len(e.Seeds) == 0 {
+			out = append(out, e.Name+": no fixture")
+		}
+	}
+	return out
 }
